@@ -154,6 +154,40 @@ def run_history(job):
         return [('machinery', f'{type(e).__name__}: {e}\n{traceback.format_exc()}')]
 
 
+def run_objects(job):
+    """GroundTrackObjs.tla behaviour: objects for the same end points created through
+    GroundTrack.great_circle with different overstep flags, queried in turn."""
+    warnings.simplefilter('ignore')
+    h, si = job
+    try:
+        from AEIC.trajectories.ground_track import GroundTrack
+        from AEIC.types import Location
+        from AEIC.utils import GEOD
+
+        start = STARTS[si]
+        lon, lat, az, unit = start
+        legs = [10]
+        lon2, lat2, _ = GEOD.fwd(lon, lat, az, legs[0] * unit)
+        wps = [(lon, lat), (lon2, lat2)]
+        objs = {}
+        done = []
+        for k, e in enumerate(h):
+            if e['op'] == 'create':
+                objs[e['obj']] = GroundTrack.great_circle(Location(longitude=lon, latitude=lat), Location(longitude=lon2, latitude=lat2), allow_overstep=e['over'])
+                done.append(('create', e['obj'], e['over']))
+                continue
+            c = dict(op=e['op'], a=e['a'], b=e['b'], legs=legs, over=e['over'])
+            devs = query_devs(objs[e['obj']], wps, c, e['o'], start)
+            done.append((e['op'], e['obj'], e['a'], e['b']))
+            if devs:
+                return [(f'objects:{key}', f'operation {k} on object {e["obj"]} (created with allow_overstep={e["over"]}) after {done[:-1]}: {d}') for key, d in devs]
+        return []
+    except Exception as e:
+        import traceback
+
+        return [('machinery', f'{type(e).__name__}: {e}\n{traceback.format_exc()}')]
+
+
 def mission_distances():
     """Mission.gc_distance against the ground track between the airports."""
     import csv
@@ -191,7 +225,7 @@ def run(ctx: Ctx):
     ctx.rule = (
         'abstract tracks = 5 leg-length sequences (1-4 legs) x overstep allowed/not x location(d) for every half-unit d from -1 to total+3 and step(a, b) '
         'for every a and b in {-1,0,1,2,3,5,11} half units (1 092 cases, TLC-enumerated), each realised from 6 start points/headings; '
-        'query histories on one object: every ordered pair of location queries on the 3 multi-leg tracks and random walks of 8 location/step queries; '
+        'object histories: every sequence of 4 (5 thorough) creations (great_circle, overstep allowed / not, same end points) and queries on up to two objects; query histories on one object: every ordered pair of location queries on the 3 multi-leg tracks and random walks of 8 location/step queries; '
         'mission distances for every airport pair of the test file + synthetic airports; non-trivial = at a waypoint, beyond the end, or refused'
     )
     ctx.not_covered += ['"is the true WGS-84 geodesic" as a statement about geodesy: decided only relative to pyproj.Geod (trusted base); what is verified is GroundTrack\'s composition of geodesic primitives']
@@ -200,6 +234,9 @@ def run(ctx: Ctx):
         c = json.loads(Path(ctx.replay).read_text())['case']
         if 'case' in c:
             for key, desc in run_case((c['case'], c['start'])):
+                ctx.violation(key, desc, c)
+        if 'objects' in c:
+            for key, desc in run_objects((c['objects'], c['start'])):
                 ctx.violation(key, desc, c)
         if 'history' in c:
             for key, desc in run_history((c['history'], c['start'])):
@@ -243,6 +280,23 @@ def run(ctx: Ctx):
             if key not in seen:
                 seen.add(key)
                 ctx.violation(key, desc, {'history': h, 'start': si})
+    # several objects for the same end points (great_circle with different overstep flags)
+    tlc.check(ctx, 'geo/GroundTrackObjs', 'geo/MC_GroundTrackObjs.cfg', workers=4)
+    neg = tlc.run('geo/GroundTrackObjs', 'geo/MC_GroundTrackObjs.cfg', sub={'Design = "own_object"': 'Design = "shared_instance"'})
+    if 'Invariant OwnFlag is violated' not in neg['out']:
+        raise MachineryError('negative control failed: one shared instance per pair of end points should violate OwnFlag')
+    ctx.extra['negative_control_objects'] = 'GroundTrackObjs with Design=shared_instance violates OwnFlag as expected'
+    ob = tlc.check(ctx, 'geo/GroundTrackObjs', 'geo/Gen_GroundTrackObjs.cfg', workers=4, sub=None if ctx.quick else {'D = 4': 'D = 5'})['emitted']
+    ojobs = [(h, i % len(STARTS)) for i, h in enumerate(ob)]
+    for (h, si), devs in zip(ojobs, pmap(run_objects, ojobs)):
+        ctx.case_done(('objects', [(e['op'], e['obj'], e['over'], e['a'], e['b']) for e in h], si), nontrivial=sum(1 for e in h if e['op'] == 'create') > 1)
+        seen = set()
+        for key, desc in devs:
+            if key.endswith('machinery'):
+                raise MachineryError('ground-track worker failed: ' + desc)
+            if key not in seen:
+                seen.add(key)
+                ctx.violation(key, desc, {'objects': h, 'start': si})
     md, n = mission_distances()
     for _ in range(n):
         ctx.evaluations += 1
